@@ -154,8 +154,17 @@ type sys struct {
 // and the stored state must not move.
 func write(m *mon, s *sys, what string, arg proto.Message, call func()) {
 	call()
+	// what the library itself did to messages handed out earlier is judged before the caller touches anything
+	m.check(what + " (before the caller modifies its argument)")
 	before := s.state()
 	scribble(arg.ProtoReflect())
+	// the caller may have got arg from a read: another holder of that very object sees the caller's edit,
+	// which is the caller's doing, not the library's
+	for i := range m.items {
+		if m.items[i].live == arg {
+			m.items[i].copy = proto.Clone(arg)
+		}
+	}
 	after := s.state()
 	if !sameList(before, after) {
 		m.fail("argument-aliased "+what, fmt.Sprintf("after %s returned, modifying the message that was passed in changed the stored state from %v to %v", what, before, after))
@@ -199,6 +208,25 @@ func valueSys() *sys {
 		set("Set(#10,mask=repeated)", 10, resource.WithUpdatePaths("repeated_nested_message", "repeated_int32")),
 		set("Set(#11,mask=map)", 11, resource.WithUpdatePaths("map_string_string", "default_well_known")),
 		set("Set(#4,before reads old)", 4, resource.InterceptBefore(func(old, n proto.Message) { _ = proto.Size(old) })),
+		// a caller may well write back what it has just read, with the documented in-place delta interceptor
+		// (new += old) or with an expectation that fails: neither may touch what earlier readers hold
+		{name: "Set(Get(),before adds old)", run: func(m *mon, _ context.Context) {
+			arg := v.Get()
+			write(m, s, "Set(Get(),before adds old)", arg, func() {
+				res, err := v.Set(arg, resource.InterceptBefore(func(old, n proto.Message) {
+					n.(*lib.T).DefaultInt32 += old.(*lib.T).DefaultInt32 + 1
+				}))
+				if err == nil {
+					m.reg("Set(Get()) result", res)
+				}
+			})
+		}},
+		{name: "Set(Get(),expectation fails)", run: func(m *mon, _ context.Context) {
+			arg := v.Get()
+			write(m, s, "Set(Get(),expectation fails)", arg, func() {
+				_, _ = v.Set(arg, resource.WithExpectedValue(tmsg(3)))
+			})
+		}},
 		{name: "Get()", readonly: true, run: func(m *mon, _ context.Context) { m.reg("Get()", v.Get()) }},
 		{name: "Get(mask=nested)", readonly: true, run: func(m *mon, _ context.Context) {
 			m.reg("Get(mask)", v.Get(resource.WithReadPaths(&lib.T{}, "default_nested_message", "repeated_nested_message")))
@@ -251,6 +279,29 @@ func collectionSys() *sys {
 			if old, err := c.Delete("a"); err == nil {
 				m.reg("Delete(a) result", old)
 			}
+		}},
+		{name: "Update(a,Get(a),before adds old)", run: func(m *mon, _ context.Context) {
+			arg, ok := c.Get("a")
+			if !ok {
+				return
+			}
+			write(m, s, "Update(a,Get(a),before adds old)", arg, func() {
+				res, err := c.Update("a", arg, resource.InterceptBefore(func(old, n proto.Message) {
+					n.(*lib.T).DefaultInt32 += old.(*lib.T).DefaultInt32 + 1
+				}))
+				if err == nil {
+					m.reg("Update(a,Get(a)) result", res)
+				}
+			})
+		}},
+		{name: "Update(a,Get(a),expectation fails)", run: func(m *mon, _ context.Context) {
+			arg, ok := c.Get("a")
+			if !ok {
+				return
+			}
+			write(m, s, "Update(a,Get(a),expectation fails)", arg, func() {
+				_, _ = c.Update("a", arg, resource.WithExpectedValue(tmsg(3)))
+			})
 		}},
 		{name: "Get(a)", readonly: true, run: func(m *mon, _ context.Context) {
 			if x, ok := c.Get("a"); ok {
